@@ -50,5 +50,7 @@ def step (s : St) : List String → St × String
     | none => (s, "bad-op")
   | _ => (s, "bad-op")
 
-def run : IO Unit := Driver.loop ({} : St) step
 end Driver.RecordIO
+
+def main : IO Unit := Driver.loop ({} : Driver.RecordIO.St) Driver.RecordIO.step
+
